@@ -19,7 +19,7 @@ ASSUMPTIONS = ["thresholds: |z| <= 6.5 for means / covariances / proportions (fa
                "valid proportions are dyadic so that their floating-point sum is exactly 1 (the code tests equality)"]
 EVAL_COUNTER = "calls"
 REQUIRED = {"quick": {"calls": 60, "gmm_calls": 25, "gmm_1d_calls": 5, "student_calls": 8, "gstm_calls": 6, "celeux_one_calls": 6,
-                      "celeux_two_calls": 6, "z_tests": 1500, "ks_tests": 30, "invalid_rejected": 12, "indefinite_covariances_tried": 40, "determinism_checks": 60, "gmm_other_unit_calls": 3},
+                      "celeux_two_calls": 6, "z_tests": 1500, "ks_tests": 30, "invalid_rejected": 12, "indefinite_covariances_tried": 40, "determinism_checks": 60, "gmm_other_unit_calls": 3, "gmm_tiny_unit_calls": 2},
             "thorough": {"calls": 500, "z_tests": 12000}}
 SHARD_TIMEOUT = {"quick": 1200, "thorough": 7000}
 ZMAX = 6.5
@@ -195,13 +195,17 @@ def run_case(case, ctx, st):
                 ctx.count("gmm_1d_calls")
             else:
                 covs = [spd(rng, d) for _ in range(K)]
-                if rng.random() < 0.3:
+                if rng.random() < 0.4:
                     # the same mixture recorded in another unit (nanometres, thousands): a covariance is what it is at
-                    # every magnitude, correlated coordinates stay correlated
-                    unit = 10.0 ** int(rng.integers(-12, 7))
+                    # every magnitude, correlated coordinates stay correlated - half of these in a tiny unit, where
+                    # every entry lies below the absolute tolerances numerical code likes to use (1e-8, 1e-12)
+                    e10 = int(rng.integers(-14, -8)) if rng.random() < 0.5 else int(rng.integers(-8, 7))
+                    unit = 10.0 ** e10
                     covs = [c * unit for c in covs]
                     means = means * math.sqrt(unit)
                     ctx.count("gmm_other_unit_calls")
+                    if e10 <= -9:
+                        ctx.count("gmm_tiny_unit_calls")
                 scale_arg = covs
             ctx.case = dict(case, generator="draw_gmm", d=d, K=K, n=n, props=props, means=means, scale=[c.tolist() for c in covs], rs=seed)
             loc_arg, pv_arg = means.tolist(), props
@@ -238,8 +242,8 @@ def run_case(case, ctx, st):
                 B = rng.normal(size=(d, r))
                 S = B @ B.T
                 ctx.count("student_singular_scale_calls")
-            if rng.random() < 0.3:
-                unit = 10.0 ** int(rng.integers(-12, 7))
+            if rng.random() < 0.4:
+                unit = 10.0 ** (int(rng.integers(-14, -8)) if rng.random() < 0.5 else int(rng.integers(-8, 7)))
                 S = S * unit
                 loc = loc * math.sqrt(unit)
                 ctx.count("student_other_unit_calls")
